@@ -256,6 +256,20 @@ class BaseModel(SolverMixin, ModelInterface):
                 f'cannot exceed value of `max_iter` ({max_iter})'
             )
 
+        # Error if the period at `t` cannot accommodate the model's lags and
+        # leads (indexing would otherwise wrap round to the other end of the
+        # span)
+        t_position = t
+        if t_position < 0:
+            t_position += len(self.span)
+
+        if t_position < self.lags or t_position > len(self.span) - 1 - self.leads:
+            raise IndexError(
+                f'Position `t` ({t}) cannot accommodate the lags ({self.lags}) '
+                f'and leads ({self.leads}) of the current model instance, '
+                f'which has {len(self.span)} period(s) in its span'
+            )
+
         # Optionally copy initial values from another period
         if offset:
             t_check = t
